@@ -43,8 +43,10 @@ def derivative(poly: PolyLike, *diffvars: Union[ndpoly, str, int]) -> ndpoly:
             idx = diffvar
         else:
             diffvar = numpoly.aspolynomial(diffvar)
+            # only terms that are actually present designate the variable
+            nonzero = [bool(numpy.any(coeff)) for coeff in diffvar.coefficients]
             exponents, names = numpoly.remove_redundant_names(
-                diffvar.exponents, diffvar.names
+                diffvar.exponents[nonzero], diffvar.names
             )
             assert names is not None and len(names) == 1, "one at the time"
             assert numpy.all(exponents == 1), "derivative variable assumes singletons"
